@@ -1854,7 +1854,15 @@ class H2Connection:
         transition the state of the stream, so we need to pass it to the
         appropriate stream.
         """
-        stream = self._get_stream_by_id(frame.stream_id)
+        try:
+            stream = self._get_stream_by_id(frame.stream_id)
+        except NoSuchStreamError:
+            # Streams we no longer (or never did) know about must not turn
+            # this into a mere stream error: an unexpected CONTINUATION frame
+            # is always a connection error.
+            raise ProtocolError(
+                "Unexpected CONTINUATION frame on stream %d" % frame.stream_id
+            )
         stream.receive_continuation()
         assert False, "Should not be reachable"
 
